@@ -214,7 +214,7 @@ def replay_lines(lines, workdir):
     return finds, p.stdout, q.stdout
 
 
-def shrink(lines, pred, workdir, budget=400):
+def shrink(lines, pred, workdir, budget=400, keep=None):
     """Delta-debug the O lines of a history while `pred(findings)` stays true. Time ops are kept
     (so a disciplined history stays disciplined); removing a creation renumbers later ids."""
     head = [l for l in lines if l.startswith("H ")][0]
@@ -278,6 +278,9 @@ def shrink(lines, pred, workdir, budget=400):
         return out
 
     def holds(ops):
+        if keep is not None and not keep(render(ops)):
+            # the history must stay inside what the property is about (e.g. keep its disabled period)
+            return False
         finds, _, _ = replay_lines(render(ops), workdir)
         return pred(finds)
 
@@ -400,13 +403,18 @@ def decide(prop, tier, seed, spec, verdict, workdir, pr, finds, stats, totals, s
         key = (f.kind, f.audit, tuple(sorted(f.fields)))
         if key in reported or len(reported) >= 3 or tries >= 8:
             continue
-        tries += 1
         lines = hist_of(f)
+        if needs and lines and not needs(lines):
+            # the history itself lies outside what this property is about (costs no try)
+            unattributed.append(f)
+            continue
+        tries += 1
         target = (f.kind, f.audit)
         small, ok = (lines, False)
         if lines:
-            small, ok = shrink(lines, lambda fs: any(spec["a"](g) and (g.kind, g.audit) == target and (g.fields & f.fields) for g in fs), workdir)
-        if needs and ok and not needs(small):
+            small, ok = shrink(lines, lambda fs: any(spec["a"](g) and (g.kind, g.audit) == target and (g.fields & f.fields) for g in fs), workdir,
+                               keep=spec.get("shrink_keep"))
+        if needs and small and not needs(small):
             # the minimal failing history does not involve what this property is about
             unattributed.append(f)
             continue
@@ -603,8 +611,16 @@ SPECS = {
                 k=lambda f: f.kind == "K" and bool(f.fields & {"result", "orders.price"})),
     "C13": dict(modules=["Bourse.Props.C13"],
                 a=lambda f: (f.kind == "A" and (f.audit == "C13" or (f.audit == "C08" and "no_trades_while_disabled" in f.fields)))
-                            or (f.kind == "R" and f.profile in ("toggle", "mixed") and bool(cfields(f))),
-                needs=lambda lines: any(l.startswith("O trading 0") or (l.startswith("H ") and " book " in l and l.split()[6] == "0") for l in lines),
+                            or (f.kind == "R" and f.profile in ("toggle", "mixed") and bool(cfields(f)))
+                            # a market whose book stops behaving like a stand-alone book in a history with a disabled period
+                            or (f.hkind == "market" and f.kind == "A" and f.audit == "SH"),
+                needs=lambda lines: any(l.startswith("O trading 0") or l.split()[3:5] == ["trading", "0"] or (l.startswith("H ") and " book " in l and l.split()[6] == "0")
+                                        or (l.startswith("H ") and " market " in l and l.split()[6] == "0") for l in lines),
+                # C13's third sentence ("once trading is enabled again every subsequently arriving or re-priced order matches
+                # against the resting book by the usual rules") speaks about histories WITH a disabled period: the failing history is
+                # minimised within those (the disabled period is kept), not discarded when a shorter one without it also fails
+                shrink_keep=lambda lines: any(l.startswith("O trading 0") or l.split()[3:5] == ["trading", "0"] or (l.startswith("H ") and " book " in l and l.split()[6] == "0")
+                                              or (l.startswith("H ") and " market " in l and l.split()[6] == "0") for l in lines),
                 k=lambda f: f.kind == "K" and ((f.tr == "0" and bool(cfields(f))) or f.op.startswith("trading"))),
     "C14": dict(modules=["Bourse.Props.C14"],
                 # ... and, in a multi-asset environment, every per-asset clause of the single-asset environment properties
